@@ -133,7 +133,25 @@ def generate(tier, seed):
                         header = [b'#one comment line\n', b'#first\n#second comment line\n', b'# c\n'][(k + (r or 0)) % 3]
                     cases.append(dict(fmt=fmt, data=data.hex(), header=header.hex(), k=k, lazy=bool((k + n + (r or 0)) % 2), route=route,
                                       cls=cls, r=r, n=n, expected=expected, rec_size=max(len(b''.join(x)) for x in recs)))
+    # offsets beyond 2**16 characters of one column inside one chunk: a BED6 file of ~70000 records with one violation
+    # (strand / start) at a record past 65536, read whole and with the default chunk size; only the expected line goes to Coq
+    for j in range(2 if tier == 'quick' else 6):
+        n = 70000 + 13 * j
+        r = 65536 + [0, 4463, 1, 3000, 17, 2500][j] + (seed % 7)
+        cases.append(dict(fmt='bed6', big=dict(n=n, r=r, cls=['strand', 'int'][j % 2]), data='', k=[0, 5000000][j % 2], lazy=bool(j % 2),
+                          route=['file', 'gz', 'seek'][j % 3], cls='big_' + ['strand', 'int'][j % 2], r=r, n=n, expected=r, rec_size=30))
     return cases
+
+
+def _big_bytes(big):
+    rows = [b'c%d\t%d\t%d\tn\t%d\t%s\n' % (i % 3, 10 + i % 50, 100 + i % 50, i % 9, b'+-'[i % 2:i % 2 + 1]) for i in range(big['n'])]
+    p = rows[big['r']].rstrip(b'\n').split(b'\t')
+    if big['cls'] == 'strand':
+        p[5] = b'?'
+    else:
+        p[1] = b'1x'
+    rows[big['r']] = b'\t'.join(p) + b'\n'
+    return b''.join(rows)
 
 
 def _buffer(fmt):
@@ -150,7 +168,7 @@ def observe(case):
     from bionumpy.io.parser import NumpyFileReader
     from bionumpy.io.npdataclassreader import NpDataclassReader
     from bionumpy.io.exceptions import FormatException
-    data = bytes.fromhex(case.get('header', '')) + bytes.fromhex(case['data'])
+    data = _big_bytes(case['big']) if case.get('big') else bytes.fromhex(case.get('header', '')) + bytes.fromhex(case['data'])
     d = None
     try:
         if case['route'] in ('seek', 'prepend'):
@@ -190,6 +208,8 @@ def _obs(o):
 
 
 def to_coq(case, o):
+    if case.get('big'):
+        return 'CBigLine %s (%s)' % (cz(case['expected']), _obs(o))
     data = bytes.fromhex(case['data'])
     mode = 'Prepend' if case['route'] in ('prepend', 'gz') else 'Seek'
     if case['cls'] in ('ncols_more', 'ncols_less') or case['fmt'] == 'mfa':
@@ -200,11 +220,11 @@ def to_coq(case, o):
 
 
 def nontrivial(case, o):
-    return case['cls'] is not None and case['r'] > 0 and 0 < case['k'] <= case['r'] * case['rec_size']
+    return bool(case.get('big')) or (case['cls'] is not None and case['r'] > 0 and 0 < case['k'] <= case['r'] * case['rec_size'])
 
 
 def describe(case, o):
-    return dict(fmt=case['fmt'], text=bytes.fromhex(case['data']).decode('latin1'), k=case['k'], lazy=case['lazy'], route=case['route'],
+    return dict(fmt=case['fmt'], big_file=case.get('big'), text=bytes.fromhex(case['data']).decode('latin1'), k=case['k'], lazy=case['lazy'], route=case['route'],
                 violation=case['cls'], record=case['r'], expected_line=case['expected'], observed=o)
 
 
